@@ -22,5 +22,5 @@ It should look like a plausible regression a maintainer could introduce (refacto
 Deliverables, all in {d}:
   patch.diff  - output of `git -C {wt} diff`
   demo.py     - a small standalone program that takes the library from PYTHONPATH: exit code 0 on the unmodified library, non-zero (with a short message saying what went wrong) with your change; deterministic (if threads are needed, force the interleaving with events/barriers or patched hooks rather than hoping for timing); finishes in < 20 s
-  notes.md    - 5-12 lines: what you changed, why it breaks the property, exactly what is needed for it to manifest, and the commands you ran with their results: the pytest summary line with the change applied, demo.py exit codes with and without the change (toggle with `git -C {wt} stash` / `git -C {wt} stash pop`)
+  notes.md    - 5-12 lines: what you changed, why it breaks the property, exactly what is needed for it to manifest, and the commands you ran with their results: the pytest summary line with the change applied, demo.py exit codes with and without the change (toggle with `git -C {wt} apply -R {d}/patch.diff` / `git -C {wt} apply {d}/patch.diff`; do NOT use git stash: the stash is shared between worktrees of other people working in parallel)
 Leave the worktree with your change applied. Your final message should be the content of notes.md.""")
